@@ -276,3 +276,27 @@ func TestC19Reconcile(t *testing.T) {
 		st.Report(rt, c, err)
 	})
 }
+
+// TestC19Packages: the Package / ObjectDeployment / ObjectSet controllers over generated package images (valid and invalid:
+// broken structure, validation failures, schema-violating configuration, platform / version (Kubernetes and OpenShift) /
+// uniqueness constraints) on clusters with and without OpenShift, with API faults and restarts; oracle = no reconcile
+// panics (Runner.Reconcile turns a recovered panic into a C19 violation keyed by the panicking frame).
+func TestC19Packages(t *testing.T) {
+	st := NewStats("C19", "packages", "scenario = real Package controller + PackageDeployer with a scripted puller over a pool of generated package images (valid; no/duplicate manifest; object/template/YAML validation failures; required config; platform, Kubernetes-version, OpenShift-version and uniqueness constraints; unsupported scope), Package spec edits, pull failures, environment changes (plain Kubernetes / OpenShift, several versions), API faults, restarts; oracle = no controller pass panics; non-trivial = a package with a constraint or a defect was reconciled")
+	CheckOrReplay(t, st, func(data []byte) (any, error) {
+		return ReplayScenario(data, func(sc *Scenario) *Runner { return NewRunner(sc) })
+	}, func(rt *rapid.T) {
+		sc := genPackageWorld(rt, "C19", true, []string{"", "EachObject"})
+		sc.Part = "packages"
+		r := NewRunner(sc)
+		err := r.Run()
+		nt := false
+		for _, d := range sc.Pkgs {
+			if d.Broken != "" || d.RequireOpenShift || d.KubeRange != "" || d.OpenShiftRange != "" || d.Unique || d.ConfigRequired {
+				nt = true
+			}
+		}
+		st.Case(sc, nt, r.LabelList()...)
+		st.Report(rt, sc, err)
+	})
+}
